@@ -128,6 +128,8 @@ def step (_ : Unit) (ts : List String) : Unit × String :=
           | .ok out => s!"off={wideOffset b.length} cap={cap} wide={natList w} {lenHex out}"
           | .error f => s!"fault {faultName f}"
       | none => "bad-op"
+    | ["wlen", h] => match unhex h with
+      | some b => orOob ((wlength b).map toString) | none => "bad-op"
     | ["warr", us] => match ints us with
       | some us => orOob ((fromWideArr us).map lenHex)
       | none => "bad-op"
